@@ -177,6 +177,27 @@ def fromState (H : Hasher) (sortBucket : Bool) (vs : ValueStream) (depth : Nat) 
   let root := rootOf H buckets
   { rootHash := root.hash, keyCount := root.count, maxTs := root.maxTs, buckets := buckets }
 
+/-! ## efficient evaluation of the model in the compiled driver (proof-backed `csimp`)
+
+  The definitions in `Model/AntiEntropy.lean` transcribe the code; evaluated literally they
+  recompute the key digests per bucket and index lists by position (quadratic in the number of
+  buckets, 2^18 and more).  The compiler is told to use the variants below, which are PROVED equal. -/
+
+def fromStateFast (H : Hasher) (sortBucket : Bool) (vs : ValueStream) (depth : Nat) (π : List Nat)
+    (s : NMap RV) : StateDigest :=
+  let m := 2 ^ depth
+  let tagged := (iter π s).map fun p => let d := keyDigest H vs p.1 p.2; (d.keyHash % m, d)
+  let buckets := (List.range m).map fun b =>
+    fromDigests H sortBucket ((tagged.filter fun t => t.1 == b).map (·.2))
+  let root := rootOf H buckets
+  { rootHash := root.hash, keyCount := root.count, maxTs := root.maxTs, buckets := buckets }
+
+@[csimp] theorem fromState_eq_fast : @fromState = @fromStateFast := by
+  funext H sb vs depth π s
+  unfold fromState fromStateFast bucketDigests
+  simp only [List.filter_map, List.map_map]
+  rfl
+
 /-- `StateDigest::differs_from` -/
 def differsFrom (a b : StateDigest) : Bool := a.rootHash != b.rootHash
 
@@ -189,6 +210,79 @@ def divergentBuckets (a b : StateDigest) : List Nat :=
     | some n => n.count > 0
     | none => false
   common ++ extra a ++ extra b
+
+theorem zipIdx_filter_map {α : Type} (q : α → Bool) (l : List α) (k : Nat) :
+    ((l.zipIdx k).filter (fun p => q p.1)).map (·.2)
+      = (List.range' k l.length).filter (fun i => match l[i - k]? with | some x => q x | none => false) := by
+  induction l generalizing k with
+  | nil => rfl
+  | cons x xs ih =>
+    rw [List.zipIdx_cons, List.length_cons, List.range'_succ, List.filter_cons, List.filter_cons]
+    have htail : (List.range' (k + 1) xs.length).filter
+        (fun i => match (x :: xs)[i - k]? with | some y => q y | none => false)
+        = (List.range' (k + 1) xs.length).filter
+        (fun i => match xs[i - (k + 1)]? with | some y => q y | none => false) := by
+      apply List.filter_congr
+      intro i hi
+      rw [List.mem_range'_1] at hi
+      have : i - k = (i - (k + 1)) + 1 := by omega
+      rw [this, List.getElem?_cons_succ]
+    simp only [Nat.sub_self, List.getElem?_cons_zero]
+    rw [htail, ← ih (k + 1)]
+    cases q x <;> simp
+
+def divergentBucketsFast (a b : StateDigest) : List Nat :=
+  let len := min a.buckets.length b.buckets.length
+  let common := (((a.buckets.zip b.buckets).zipIdx 0).filter (fun p => p.1.1 != p.1.2)).map (·.2)
+  let extra (x : StateDigest) := (((x.buckets.drop len).zipIdx len).filter (fun p => decide (p.1.count > 0))).map (·.2)
+  common ++ extra a ++ extra b
+
+@[csimp] theorem divergentBuckets_eq_fast : @divergentBuckets = @divergentBucketsFast := by
+  funext a b
+  unfold divergentBuckets divergentBucketsFast
+  simp only []
+  have hcommon : (List.range (min a.buckets.length b.buckets.length)).filter (fun i => a.buckets[i]? != b.buckets[i]?)
+      = (((a.buckets.zip b.buckets).zipIdx 0).filter (fun p => p.1.1 != p.1.2)).map (·.2) := by
+    rw [zipIdx_filter_map (fun p : MerkleNode × MerkleNode => p.1 != p.2), List.length_zip, List.range_eq_range']
+    apply List.filter_congr
+    intro i hi
+    rw [List.mem_range'_1] at hi
+    have h1 : i < a.buckets.length := by omega
+    have h2 : i < b.buckets.length := by omega
+    have hz : (a.buckets.zip b.buckets)[i - 0]? = some (a.buckets[i], b.buckets[i]) := by
+      rw [Nat.sub_zero, List.getElem?_zip_eq_some]
+      exact ⟨List.getElem?_eq_getElem h1, List.getElem?_eq_getElem h2⟩
+    rw [hz, List.getElem?_eq_getElem h1, List.getElem?_eq_getElem h2]
+    by_cases he : a.buckets[i] = b.buckets[i]
+    · simp [he]
+    · have e1 : (some a.buckets[i] != some b.buckets[i]) = true := by
+        rw [bne_iff_ne]; intro h; exact he (Option.some.inj h)
+      have e2 : (a.buckets[i] != b.buckets[i]) = true := bne_iff_ne.mpr he
+      rw [e1]
+      exact e2.symm
+  have hextra : ∀ x : StateDigest,
+      (((List.range x.buckets.length).drop (min a.buckets.length b.buckets.length)).filter fun i =>
+        match x.buckets[i]? with
+        | some n => decide (n.count > 0)
+        | none => false)
+      = (((x.buckets.drop (min a.buckets.length b.buckets.length)).zipIdx (min a.buckets.length b.buckets.length)).filter
+          (fun p => decide (p.1.count > 0))).map (·.2) := by
+    intro x
+    rw [zipIdx_filter_map (fun n : MerkleNode => decide (n.count > 0)), List.range_eq_range', List.drop_range',
+      List.length_drop]
+    simp only [Nat.mul_one, Nat.zero_add]
+    apply List.filter_congr
+    intro i hi
+    rw [List.mem_range'_1] at hi
+    rw [List.getElem?_drop]
+    have : min a.buckets.length b.buckets.length + (i - min a.buckets.length b.buckets.length) = i := by omega
+    rw [this]
+    cases hx : x.buckets[i]? <;> simp
+  rw [hcommon]
+  congr 1
+  · congr 1
+    exact hextra a
+  · exact hextra b
 
 /-- how `get_keys_in_buckets` arranges the selected entries before applying the limit -/
 abbrev Arrange := List (Nat × RV) → List (Nat × RV)
@@ -291,6 +385,45 @@ def pullWith (ord : RespOrder) (H : Hasher) (sortBucket : Bool) (vs : ValueStrea
     let resp := responseKeysWith ord H vs depth limit πp p (if full then none else some div)
     (true, div, resp, applyDeltas r resp)
   else (false, [], [], r)
+
+/-- a digest-side clamp of the tree depth (`None` = the current tree: no clamp; `Some c` = the
+    seeded defect class "the digest materialises at most 2^c buckets" while the key filters keep
+    bucketing with the configured depth) -/
+def digestDepth (clamp : Option Nat) (depth : Nat) : Nat :=
+  match clamp with
+  | none => depth
+  | some c => min depth c
+
+/-- `pullWith .filterThenTake` with the digests built at `digestDepth clamp depth` and the
+    responder's key filter at `depth` -/
+def pullClamped (clamp : Option Nat) (H : Hasher) (sortBucket : Bool) (vs : ValueStream) (depth limit : Nat)
+    (πr πp : List Nat) (r p : NMap RV) : Bool × List Nat × List (Nat × RV) × NMap RV :=
+  let dr := fromState H sortBucket vs (digestDepth clamp depth) πr r
+  let dp := fromState H sortBucket vs (digestDepth clamp depth) πp p
+  if differsFrom dr dp then
+    let div := divergentBuckets dr dp
+    let resp := responseKeysWith .filterThenTake H vs depth limit πp p (some div)
+    (true, div, resp, applyDeltas r resp)
+  else (false, [], [], r)
+
+/-- what `let num_buckets = 1 << depth; vec![Vec::new(); num_buckets]` in
+    `StateDigest::from_state` does for a configured `merkle_tree_depth` (an unvalidated `usize`) on
+    a 64-bit target: a shift amount ≥ 64 panics when the crate is built with overflow checks (as
+    the verification harness builds it) and wraps modulo 64 otherwise (a default release build);
+    a vector of more than `isize::MAX` bytes (24 bytes per bucket) panics with "capacity
+    overflow"; below that the allocation is attempted (and aborts the process when the memory is
+    not there — not modelled) -/
+inductive DigestAlloc where
+  | buckets (n : Nat)
+  | capacityOverflowPanic
+  | shiftOverflowPanic
+  deriving DecidableEq, Repr
+
+def digestAlloc (overflowChecks : Bool) (depth : Nat) : DigestAlloc :=
+  if overflowChecks && depth ≥ 64 then .shiftOverflowPanic
+  else
+    let n := 2 ^ (depth % 64)
+    if 24 * n > 2 ^ 63 - 1 then .capacityOverflowPanic else .buckets n
 
 /-- the digest / the sync round of the current tree -/
 def digest (H : Hasher) (depth : Nat) (π : List Nat) (s : NMap RV) : StateDigest :=
